@@ -421,13 +421,13 @@ fn oracle_c15(case: &Case, outs: &[ImplRes]) -> Result<(), String> {
                 }
                 expect_eq("decode()", &items(o.text).join(" "), &want.join(" "))?;
             }
-            "iter" => {
+            "iter" | "iterx" => {
                 let mut want = ref_items.clone();
                 if fin != "-" {
                     want.push(fin.clone());
                 }
                 let w = if want.is_empty() { "-".to_string() } else { want.join(" ") };
-                let k: usize = line.split(' ').nth(3).and_then(|t| t.parse().ok()).unwrap_or(2);
+                let k: usize = line.split(' ').nth(if op == "iterx" { 4 } else { 3 }).and_then(|t| t.parse().ok()).unwrap_or(2);
                 expect_eq("decode_streaming()", o.text, &format!("{} | {}", w, vec!["N"; k].join(" ")))?;
             }
             "rdr" => {
